@@ -19,6 +19,8 @@ TABLES = {
     "rising_interval_zeta": "tuple[int,int,real]",
     "recession_interval": "tuple[int,real]",
     "recession_interval_zeta": "tuple[int,int,real]",
+    "grid_time_label": "tuple[int,int]",             # ghost table: the (data_interval, epoch) updates of grid_time
+    "water_level": "tuple[int,real]",
 }
 
 
@@ -247,4 +249,23 @@ def _ins_et(p):
         SELECT ris.epoch, ris.epoch + ?, rainfall_intensity_mm_h FROM rainfall_intensity_staging AS ris
         JOIN grid_time AS gt USING (epoch) WHERE ris.epoch <= ?""", kind="insert")
 def _ins_rain(p):
+    pass
+
+
+@sql("""SELECT epoch, zeta_mm FROM water_level_staging""", rows="tuple[int,real]")
+def _q_staged_wl(p, rows):
+    """The staged water levels in rowid order = epoch order (epoch is the INTEGER PRIMARY KEY of the staging
+    table, hence its rowid; a scan without ORDER BY visits rows in rowid order)."""
+    ensures(len(rows) == uf_int("n_staged_wl"))
+    ensures(forall(0, len(rows), lambda j: forall(0, j, lambda i: rows[i][0] < rows[j][0])))
+    ensures(implies(len(rows) >= 1, rows[0][0] == uf_int("min_staged_wl") and rows[len(rows) - 1][0] == uf_int("max_staged_wl")))
+
+
+@sql("""UPDATE grid_time SET data_interval = ? WHERE epoch = ?""", kind="insert", table="grid_time_label", row=lambda p: (p[0], p[1]))
+def _upd_grid_time_label(p):
+    pass
+
+
+@sql("""INSERT INTO water_level (epoch, zeta_mm) VALUES (?, ?)""", kind="insert", table="water_level", row=lambda p: (p[0], p[1]))
+def _ins_water_level(p):
     pass
